@@ -463,6 +463,8 @@ def run_book(ctx, bi, far):
             if ':' in body and wrap in ('=1+{}', '=IF(1>0,2,{})'):
                 wrap = '=SUM({})'
             bcells[f'K{i + 1}'] = wrap.format(q + body)
+        # a prefix that names no sheet at all: as unknown as any other title, never the formula's own sheet
+        bcells['K5'] = rng.choice(["=''!A1", '=!A1', "=SUM(''!A1:A3)", '=1+!B2', "=SUM(''!A:A)", '=!$B$2', "=COUNT(A1,''!B2)"])
         bspec = {'sheets': [wbspec.sheet(titles[si], {'A1': 1, 'B2': 2, **(bcells if si == 0 else {})}) for si in range(ns)]}
         bpath = wbspec.write(bspec, os.path.join(ctx.workdir, name + '_bad.xlsx'))
         for a, f in bcells.items():
